@@ -275,6 +275,26 @@ pub fn oracle_words() -> String {
     let mut seen = std::collections::HashSet::new();
     let mut s = String::new();
     for c in calls {
+        // the assumptions of C18's theorems about the regex engine (`ExtSane`), checked on every recorded call:
+        // matches are in order, do not overlap, lie inside the text and on character boundaries
+        if c.kind == "find_iter" {
+            let text = std::str::from_utf8(&c.input).ok();
+            let mut last = 0usize;
+            let mut sane = c.output.len() % 8 == 0;
+            for ch in c.output.chunks_exact(8) {
+                let a = u32::from_le_bytes([ch[0], ch[1], ch[2], ch[3]]) as usize;
+                let b = u32::from_le_bytes([ch[4], ch[5], ch[6], ch[7]]) as usize;
+                sane &= a >= last && a <= b && b <= c.input.len() && text.map(|t| t.is_char_boundary(a) && t.is_char_boundary(b)).unwrap_or(false);
+                last = b.max(last);
+            }
+            if !sane {
+                let line = format!("IMPLEQ oracle-sanity find_iter {} {} :: DIFF recorded matches are not ordered, disjoint, in bounds and on character boundaries: {}", hex(c.param.as_bytes()), hex(&c.input), hex(&c.output));
+                let mut fails = ORACLE_FAILS.lock().unwrap();
+                if fails.len() < 200 && !fails.contains(&line) {
+                    fails.push(line);
+                }
+            }
+        }
         if let Some(lib) = library_result(c.kind, &c.param, &c.input) {
             if lib != c.output {
                 let line = format!(
